@@ -93,27 +93,39 @@ def build_specs():
 
 
 # ---------------------------------------------------------------------------------------------------------------
-def root_locals(v):
-    """locals a (field) value is built from: the base of its mutation history, looking through Some / boxing wrappers"""
+def root_keys(v):
+    """loop-carried cells (full lv keys: local, field path...) a value is built from: the base of its mutation history, looking
+    through Some / boxing wrappers and payload projections"""
     out = set()
     x = v
-    for _ in range(12):
+    for _ in range(16):
         if x[0] == 'adt' and x[2] in ('Some', 'Ok') and len(x[3]) == 1:
             x = x[3][0]
         elif x[0] == 'pure' and x[1].split('::')[-1] in ('into_boxed_slice', 'into_vec', 'into', 'from', 'clone') and len(x[2]) == 1:
             x = x[2][0]
-        elif x[0] == 'mut':
+        elif x[0] in ('mut', 'cref', 'pos'):
             x = x[1]
-        elif x[0] == 'cref':
-            x = x[1]
+        elif x[0] == 'fld' and isinstance(x[2], int):
+            inner = root_keys(x[1])
+            return set(k + (x[2],) for k in inner)
         else:
             break
     if x[0] == 'lv' and isinstance(x[1], tuple) and x[1]:
-        out.add(x[1][0])
+        out.add(tuple(x[1]))
     elif x[0] == 'adt':
         for y in x[3]:
-            out |= root_locals(y)
+            out |= root_keys(y)
     return out
+
+
+def root_locals(v):
+    return set(k[0] for k in root_keys(v))
+
+
+def compatible(a, b):
+    """one cell path is a prefix of the other"""
+    n = min(len(a), len(b))
+    return a[:n] == b[:n]
 
 
 class Slots:
@@ -121,7 +133,8 @@ class Slots:
     map insertions (key slot / value slot)"""
 
     def __init__(self, prog, pa, result_ty):
-        self.by_local = {}      # local -> slot name
+        self.by_local = {}      # local -> slot name (whole local)
+        self.by_key = {}        # (local, path...) -> slot name (cells inside a local: Option payloads, tuple fields)
         self.result_local = None
         self.field_slot = {}    # (result local, field idx) -> slot name
         facts = prog.facts
@@ -159,7 +172,7 @@ class Slots:
         # slots that are plain locals assigned once (not loop-carried): recognised by the stored value being the returned field value
         for st in pa.steps:
             for sink, val, tok, xf, sp in st.stores:
-                if sink[0] == 'L' and not sink[2] and len(sink) == 3:
+                if sink[0] == 'L' and len(sink) == 3:
                     for fv, name in self.value_slot:
                         if fv == val:
                             self.by_local.setdefault(sink[1], name)
@@ -167,10 +180,14 @@ class Slots:
         for st in pa.steps:
             for sink, val, tok, xf, sp in st.stores:
                 if sink[0] == 'L' and len(sink) > 3 and sink[3] == 'insert' and self.slot_of_sink(sink) == 'map' and val[0] == 'tuple' and len(val[1]) == 2:
-                    for l in root_locals(val[1][0]):
-                        self.by_local[l] = 'K'
-                    for l in root_locals(val[1][1]):
-                        self.by_local[l] = 'V'
+                    for k in root_keys(val[1][0]):
+                        self.by_key[k] = 'K'
+                    for k in root_keys(val[1][1]):
+                        self.by_key[k] = 'V'
+        # cells that are whole locals also answer by local
+        for k, name in list(self.by_key.items()):
+            if len(k) == 1 or all(isinstance(x, int) and x == 0 for x in k[1:]) and not [k2 for k2 in self.by_key if k2 != k and k2[0] == k[0]]:
+                self.by_local.setdefault(k[0], name)
 
     def slot_of_sink(self, sink):
         if sink is None or sink[0] != 'L':
@@ -178,6 +195,16 @@ class Slots:
         l, path = sink[1], sink[2]
         if path and (l, path[0]) in self.field_slot:
             return self.field_slot[(l, path[0])]
+        # cells inside a local (payload of an Option, field of a tuple): the longest compatible cell names the slot, if unambiguous
+        cands = set(name for k, name in self.by_key.items() if k[0] == l and compatible(tuple(k[1:]), tuple(path)))
+        if len(cands) == 1:
+            return cands.pop()
+        if len(cands) > 1:
+            exact = set(name for k, name in self.by_key.items() if k[0] == l and tuple(k[1:])[:len(path)] == tuple(path) and len(k) - 1 >= len(path) and tuple(path) == tuple(k[1:len(path) + 1]))
+            deeper = set(name for k, name in self.by_key.items() if k[0] == l and tuple(path)[:len(k) - 1] == tuple(k[1:]))
+            if len(deeper) == 1:
+                return deeper.pop()
+            return None
         if not path and l in self.by_local:
             return self.by_local[l]
         if l in self.by_local and path and all(p == 0 for p in path):
@@ -234,7 +261,7 @@ class TableCheck:
             return None
         if st.seg.src[0] == 'head':
             cur = [t for t in toks if t.el[2] == 1]
-            last = [t for t in toks if t.el[2] == 0]
+            last = [t for t in toks if t.el[2] == -1]
             # a `next`-cell loop carries the element just taken (index 0); a `peek`-cell loop the one under the cursor (index 1)
             for t in last:
                 if t.present is not None or t.shape is not None:
